@@ -267,10 +267,11 @@ class ArrV:
     """numpy array whose trailing axes have constant sizes (e.g. (..., 6, 6)); `batch` leading
     axes are symbolic grid axes.  Cells default to `fill`."""
 
-    def __init__(self, batch, shape, fill=sp.Integer(0), cells=None, sym_of=None):
+    def __init__(self, batch, shape, fill=sp.Integer(0), cells=None, sym_of=None, batch_last=False):
         self.batch, self.shape, self.fill = batch, tuple(shape), fill
         self.cells = dict(cells or {})
         self.sym_of = sym_of   # for inverse matrices: the ArrV this one is the inverse of
+        self.batch_last = batch_last      # the symbolic axes follow the constant ones (after a transpose)
 
     def get(self, key):
         return self.cells.get(tuple(key), self.fill)
@@ -285,11 +286,20 @@ class ArrV:
             items.append(SliceV(None, None, None))
         if len(items) != self.batch + len(self.shape):
             raise ev.err("index rank does not match the array", n, mod)
-        for i in items[: self.batch]:
+        grid_items = items[len(self.shape):] if self.batch_last else items[: self.batch]
+        const_items = items[: len(self.shape)] if self.batch_last else items[self.batch:]
+        for i in grid_items:
             if not (isinstance(i, SliceV) and i.lo is None and i.hi is None and i.step is None):
                 raise ev.err("non-trivial index on a grid axis", n, mod)
         sets, scalar = [], []
-        for size, i in zip(self.shape, items[self.batch:]):
+        for size, i in zip(self.shape, const_items):
+            if isinstance(i, Tup) and all(is_sym(x) and x.is_Integer for x in i.items):      # integer-list (fancy) index on one axis
+                ks = [int(x) + (size if int(x) < 0 else 0) for x in i.items]
+                if not all(0 <= kk < size for kk in ks):
+                    raise RaisedV("IndexError", f"{mod.rel}:{getattr(n, 'lineno', 0)}" if mod else "")
+                sets.append(ks)
+                scalar.append(False)
+                continue
             if isinstance(i, SliceV):
                 lo = 0 if i.lo is None else _const_int(i.lo)
                 hi = size if i.hi is None else _const_int(i.hi)
@@ -417,7 +427,7 @@ class Ev:
         if isinstance(v, ArrV) and name == "copy":
             return BoundLib("ndarray.copy", v)
         if isinstance(v, ArrV) and name == "astype":
-            return BoundLib("ndarray.copy", v)
+            return BoundLib("ndarray.astype", v)
         if isinstance(v, ArrV) and name in ("min", "max", "sum", "mean"):
             return BoundLib(f"arr.{name}", v)
         if isinstance(v, ArrV) and name == "ndim":
@@ -577,6 +587,10 @@ class Ev:
                 return self.from_resolution("global", f"{mod.name}:{name}", node, mod)
         if name in BUILTINS:
             return LibV(f"builtins.{name}")
+        if name == "__name__" and mod is not None:
+            return mod.name
+        if name == "__file__" and mod is not None:
+            return f"<package>/{mod.rel}"
         raise self.err(f"unbound name {name}", node, mod)
 
     # ------------------------------------------------------------ expressions
@@ -635,6 +649,21 @@ class Ev:
         if isinstance(n.op, ast.Not):
             b = self.truth(v, n, mod)
             return not b
+        if isinstance(n.op, ast.Invert):
+            if isinstance(v, bool):
+                return not v
+            if isinstance(v, ArrV) and all(isinstance(c, bool) for c in list(v.cells.values()) + [v.fill]):
+                out = ArrV(v.batch, v.shape, not v.fill, batch_last=v.batch_last)
+                out.cells = {kk: (not c) for kk, c in v.cells.items()}
+                return out
+            if isinstance(v, CondV):
+                neg = {"==": "!=", "!=": "==", "<": ">=", ">=": "<", ">": "<=", "<=": ">"}.get(v.op)
+                if neg:
+                    return CondV(f"not ({v.text})", v.lhs, neg, v.rhs)
+            if isinstance(v, TolCond):
+                return TolCond(f"not {v.text}")
+            if is_sym(v) and v.is_Integer:
+                return sp.Integer(~int(v))
         raise self.err("unsupported unary operator", n, mod)
 
     def e_BinOp(self, n, env, mod):
@@ -962,7 +991,7 @@ class Ev:
             if all(scalar):
                 return base.get([x[0] for x in sets])
             out_shape = [len(x) for x, sc in zip(sets, scalar) if not sc]
-            out = ArrV(base.batch, out_shape, base.fill)
+            out = ArrV(base.batch, out_shape, base.fill, batch_last=base.batch_last)
             for combo in itertools.product(*[range(len(x)) for x in sets]):
                 src_key = tuple(x[c] for x, c in zip(sets, combo))
                 dst_key = tuple(c for c, sc in zip(combo, scalar) if not sc)
@@ -1716,7 +1745,7 @@ class MatProd(sp.Function):
 STR_METHODS = {"lower", "upper", "strip", "split", "startswith", "endswith", "join", "format", "rjust", "replace",
                "lstrip", "rstrip", "isdigit"}
 
-BUILTINS = {"len", "range", "tuple", "list", "sorted", "zip", "map", "int", "float", "str", "sum", "abs", "min",
+BUILTINS = {"frozenset", "len", "range", "tuple", "list", "sorted", "zip", "map", "int", "float", "str", "sum", "abs", "min",
             "max", "round", "set", "dict", "enumerate", "isinstance", "next", "reversed", "any", "all", "open",
             "print", "type", "callable", "getattr", "repr", "hash", "bool", "slice"}
 
@@ -1871,7 +1900,11 @@ def lib_zip(ev, a, k, n, mod):
 
 
 def lib_product(ev, a, k, n, mod):
-    return Tup([Tup(t) for t in itertools.product(*[ev.iterate(x, n, mod) for x in a])], "list")
+    rep = _const_int(k.get("repeat", sp.Integer(1)))
+    return Tup([Tup(t) for t in itertools.product(*[ev.iterate(x, n, mod) for x in a], repeat=rep)], "list")
+
+
+lib_product.kw = {"repeat"}
 
 
 def lib_permutations(ev, a, k, n, mod):
@@ -2151,6 +2184,173 @@ def lib_re_search(ev, a, k, n, mod):
     return MatchV(m) if m else None
 
 
+class RegexV:
+    """a compiled pattern (constant)"""
+
+    def __init__(self, pat, flags=0):
+        self.pat, self.flags = pat, flags
+        self.const_key = ("regex", pat, flags)
+
+    def sym_getattr(self, ev, name, node, mod):
+        if name in ("search", "match", "fullmatch", "sub", "findall", "split"):
+            return BoundLib(f"regex.{name}", self)
+        if name == "pattern":
+            return self.pat
+        raise ev.err(f"regex attribute {name}", node, mod)
+
+
+def _re_flags(v):
+    if v is None:
+        return 0
+    if is_sym(v) and v.is_Integer:
+        return int(v)
+    name = getattr(v, "name", "")
+    import re
+    if name.startswith("re.") and hasattr(re, name[3:]):
+        return int(getattr(re, name[3:]))
+    raise AnalysisError(f"regex flags {v!r} are not modelled")
+
+
+def lib_re_compile(ev, a, k, n, mod):
+    if not isinstance(a[0], str):
+        raise ev.err("re.compile of a non-constant pattern", n, mod)
+    return RegexV(a[0], _re_flags(a[1] if len(a) > 1 else k.get("flags")))
+
+
+lib_re_compile.kw = {"flags"}
+
+
+def lib_regex_method(name):
+    def f(ev, a, k, n, mod):
+        import re
+        rx = a[0]
+        if isinstance(rx, str):                      # module-level re.<name>(pattern, string, ...)
+            rx = RegexV(rx, _re_flags(k.get("flags")))
+        rest = a[1:]
+        if not all(isinstance(x, str) for x in rest[:2 if name == "sub" else 1]):
+            raise ev.err(f"regex {name} on a non-constant string", n, mod)
+        c = re.compile(rx.pat, rx.flags)
+        if name in ("search", "match", "fullmatch"):
+            m = getattr(c, name)(rest[0])
+            return MatchV(m) if m else None
+        if name == "sub":
+            return c.sub(rest[0], rest[1])
+        if name == "findall":
+            r = c.findall(rest[0])
+            return Tup([Tup(list(x)) if isinstance(x, tuple) else x for x in r], "list")
+        if name == "split":
+            return Tup(c.split(rest[0]), "list")
+        raise ev.err(f"regex method {name}", n, mod)
+    f.kw = {"flags"}
+    return f
+
+
+class PartialV:
+    """functools.partial(f, *args, **kwargs)"""
+
+    def __init__(self, f, args, kwargs):
+        self.f, self.args, self.kwargs = f, list(args), dict(kwargs)
+
+    def sym_call(self, ev, args, kwargs, n, mod):
+        kw = dict(self.kwargs)
+        kw.update(kwargs)
+        return ev.call(self.f, self.args + list(args), kw, n, mod)
+
+
+def lib_partial(ev, a, k, n, mod):
+    return PartialV(a[0], a[1:], k)
+
+
+lib_partial.kw = None
+
+
+class GetterV:
+    def __init__(self, kind, names):
+        self.kind, self.names = kind, names
+
+    def sym_call(self, ev, args, kwargs, n, mod):
+        def one(nm):
+            if self.kind == "attr":
+                v = args[0]
+                for part in nm.split("."):
+                    v = ev.get_attr(v, part, n, mod)
+                return v
+            return ev.subscript(args[0], nm, n, mod)
+        vals = [one(nm) for nm in self.names]
+        return vals[0] if len(vals) == 1 else Tup(vals)
+
+
+def lib_attrgetter(ev, a, k, n, mod):
+    if not all(isinstance(x, str) for x in a):
+        raise ev.err("attrgetter of non-constant names", n, mod)
+    return GetterV("attr", list(a))
+
+
+def lib_itemgetter(ev, a, k, n, mod):
+    return GetterV("item", list(a))
+
+
+def lib_mapping_proxy(ev, a, k, n, mod):
+    if not isinstance(a[0], DictV):
+        raise ev.err("MappingProxyType of something that is not a dict", n, mod)
+    out = DictV()
+    out.d.update(a[0].d)
+    out.readonly = True
+    return out
+
+
+def lib_frozenset(ev, a, k, n, mod):
+    if not a:
+        return Tup([], "set")
+    items = []
+    seen = set()
+    for v in ev.iterate(a[0], n, mod):
+        h = hkey(v)
+        if h not in seen:
+            seen.add(h)
+            items.append(v)
+    return Tup(items, "set")
+
+
+class NullContext:
+    """a context manager without effect on values (numpy.errstate, warnings.catch_warnings, contextlib.nullcontext/suppress)"""
+
+    def sym_getattr(self, ev, name, node, mod):
+        return BoundLib("identity_method", self)
+
+
+def lib_nullcontext(ev, a, k, n, mod):
+    return NullContext()
+
+
+lib_nullcontext.kw = None
+
+
+def lib_np_round(ev, a, k, n, mod):
+    dec = a[1] if len(a) > 1 else k.get("decimals", sp.Integer(0))
+    dec = _const_int(dec)
+
+    def one(v):
+        v = as_sym(v)
+        if v.is_integer:
+            return v
+        if v.is_Rational:
+            q = sp.Rational(round(v * 10 ** dec), 10 ** dec)
+            return q
+        return sp.Function(f"ROUND{dec}")(v) if dec else sp.Function("ROUND")(v)
+    x = a[0]
+    if isinstance(x, Tup):
+        return Tup([one(i) for i in x.items], x.kind)
+    if isinstance(x, ArrV):
+        out = ArrV(x.batch, x.shape, one(x.fill))
+        out.cells = {kk: one(v) for kk, v in x.cells.items()}
+        return out
+    return one(x)
+
+
+lib_np_round.kw = {"decimals"}
+
+
 def lib_getattr(ev, a, k, n, mod):
     if not isinstance(a[1], str):
         raise ev.err("getattr with a non-constant name", n, mod)
@@ -2176,7 +2376,14 @@ def lib_match_groups(ev, a, k, n, mod):
 LIB.update({
     "match.group": lib_match_group, "match.groups": lib_match_groups,
     "numpy.zeros": lib_zeros, "numpy.ones": lib_ones, "numpy.linalg.inv": lib_inv,
-    "numpy.allclose": lib_allclose_unknown, "re.search": lib_re_search, "re.match": lib_re_search,
+    "numpy.allclose": lib_allclose_unknown, "re.search": lib_regex_method("search"), "re.match": lib_regex_method("match"),
+    "re.fullmatch": lib_regex_method("fullmatch"), "re.sub": lib_regex_method("sub"), "re.findall": lib_regex_method("findall"), "re.split": lib_regex_method("split"),
+    "re.compile": lib_re_compile, "regex.search": lib_regex_method("search"), "regex.match": lib_regex_method("match"),
+    "regex.fullmatch": lib_regex_method("fullmatch"), "regex.sub": lib_regex_method("sub"), "regex.findall": lib_regex_method("findall"), "regex.split": lib_regex_method("split"),
+    "functools.partial": lib_partial, "operator.attrgetter": lib_attrgetter, "operator.itemgetter": lib_itemgetter,
+    "types.MappingProxyType": lib_mapping_proxy, "frozenset": lib_frozenset,
+    "numpy.errstate": lib_nullcontext, "warnings.catch_warnings": lib_nullcontext, "contextlib.nullcontext": lib_nullcontext,
+    "numpy.round": lib_np_round, "numpy.around": lib_np_round, "numpy.round_": lib_np_round, "ndarray.round": lib_np_round,
     "getattr": lib_getattr,
 })
 
@@ -2357,7 +2564,34 @@ def lib_enumerate(ev, a, k, n, mod):
     return Tup([Tup([sp.Integer(i), x]) for i, x in enumerate(ev.iterate(a[0], n, mod))], "list")
 
 
-LIB.update({"ndarray.astype": lambda ev, a, k, n, mod: a[0], "identity_method": lambda ev, a, k, n, mod: a[0], "list.append": lib_list_append, "list.extend": lib_list_extend, "numpy.pad": lib_np_pad, "list.index": lib_list_index, "list.tolist": lib_list_tolist,
+def lib_astype(ev, a, k, n, mod):
+    """x.astype(dtype): identity for a floating dtype; truncation toward zero for an integer dtype; anything else unmodelled"""
+    x = a[0]
+    dt = a[1] if len(a) > 1 else k.get("dtype")
+    name = dt if isinstance(dt, str) else getattr(dt, "name", None)
+    name = (name or "").replace("builtins.", "").replace("numpy.", "")
+    if name in ("float", "float64", "double", "float_", "longdouble", "f8", "d", "complex", "complex128"):
+        return x
+    if name in ("int", "int64", "int32", "intp", "int_", "i8", "i4", "long", "uint64", "uint32"):
+        def one(v):
+            v = as_sym(v)
+            if v.is_integer:
+                return v
+            if v.is_number:
+                return sp.Integer(int(v))
+            return sp.Function("TRUNC")(v)
+        if isinstance(x, ArrV):
+            out = ArrV(x.batch, x.shape, one(x.fill))
+            out.cells = {kk: one(v) for kk, v in x.cells.items()}
+            return out
+        if isinstance(x, Tup):
+            return Tup([one(i) for i in x.items], x.kind)
+        return one(x)
+    raise ev.err(f"astype({dt!r}) is not modelled", n, mod)
+
+
+lib_astype.kw = {"dtype", "copy"}
+LIB.update({"ndarray.astype": lib_astype, "identity_method": lambda ev, a, k, n, mod: a[0], "list.append": lib_list_append, "list.extend": lib_list_extend, "numpy.pad": lib_np_pad, "list.index": lib_list_index, "list.tolist": lib_list_tolist,
             "list.copy": lib_list_tolist, "next": lib_next, "any": lib_any, "all": lib_all, "numpy.any": lib_any,
             "numpy.all": lib_all, "enumerate": lib_enumerate})
 
@@ -2762,6 +2996,152 @@ def lib_minmax2(name):
     return f
 
 
+def _as_arr(ev, v, n, mod):
+    """nested constant-length sequences / scalars -> ArrV (batch 0)"""
+    if isinstance(v, ArrV):
+        return v
+    if isinstance(v, Tup):
+        subs = [_as_arr(ev, i, n, mod) for i in v.items]
+        if all(not isinstance(x, ArrV) for x in subs):
+            out = ArrV(0, (len(subs),))
+            out.cells = {(i,): x for i, x in enumerate(subs)}
+            return out
+        if not all(isinstance(x, ArrV) for x in subs) or len({(x.shape, x.batch, x.batch_last) for x in subs}) != 1:
+            raise ev.err("ragged or mixed nested sequence as an array", n, mod)
+        out = ArrV(subs[0].batch, (len(subs),) + subs[0].shape, batch_last=subs[0].batch_last)
+        for i, x in enumerate(subs):
+            for key in itertools.product(*[range(d) for d in x.shape]):
+                out.cells[(i,) + key] = x.get(key)
+        return out
+    return v
+
+
+def lib_transpose(ev, a, k, n, mod):
+    x = a[0]
+    axes = a[1] if len(a) > 1 else k.get("axes")
+    if isinstance(x, Tup):
+        x = _as_arr(ev, x, n, mod)
+    if not isinstance(x, ArrV):
+        if axes is None:
+            return ev.get_attr(x, "T", n, mod)
+        raise ev.err("transpose with explicit axes of a value whose axes are not modelled", n, mod)
+    nd = x.batch + len(x.shape)
+    order = list(range(nd))[::-1] if axes is None else [_const_int(i) % nd for i in ev.iterate(axes, n, mod)]
+    if sorted(order) != list(range(nd)):
+        raise RaisedV("ValueError")
+    grid = set(range(len(x.shape), nd)) if x.batch_last else set(range(x.batch))
+    pos_grid = [i for i, o in enumerate(order) if o in grid]
+    if x.batch and pos_grid != list(range(x.batch)) and pos_grid != list(range(nd - x.batch, nd)):
+        raise ev.err("transpose that interleaves grid axes with constant axes", n, mod)
+    if x.batch > 1 and [order[i] for i in pos_grid] != sorted(order[i] for i in pos_grid):
+        raise ev.err("transpose that permutes the grid axes among themselves", n, mod)
+    const_old = [o - (0 if x.batch_last else x.batch) for o in order if o not in grid]
+    out = ArrV(x.batch, [x.shape[o] for o in const_old], x.fill, batch_last=bool(x.batch) and pos_grid == list(range(nd - x.batch, nd)))
+    for key in itertools.product(*[range(d) for d in x.shape]):
+        if tuple(key) in x.cells:
+            out.cells[tuple(key[o] for o in const_old)] = x.cells[tuple(key)]
+    return out
+
+
+lib_transpose.kw = {"axes"}
+
+
+def lib_stack(kind):
+    def f(ev, a, k, n, mod):
+        items = ev.iterate(a[0], n, mod)
+        axis = k.get("axis", a[1] if len(a) > 1 and kind == "stack" else sp.Integer(0))
+        axis = _const_int(axis)
+        arrs = [_as_arr(ev, i, n, mod) for i in items]
+        if all(not isinstance(x, ArrV) for x in arrs):            # a list of whole-array expressions
+            if kind in ("stack", "column_stack") or True:
+                # new constant axis over symbolic operands: last axis for column_stack / stack(axis=-1), first constant axis otherwise
+                out = ArrV(1, (len(arrs),))
+                out.cells = {(i,): as_sym(x) for i, x in enumerate(arrs)}
+                if kind == "stack" and axis not in (-1, 1):
+                    out.batch_last = True if axis == 0 else out.batch_last
+                return out
+        if not all(isinstance(x, ArrV) for x in arrs) or len({(x.shape, x.batch) for x in arrs}) != 1:
+            raise ev.err(f"numpy.{kind} of operands with different shapes", n, mod)
+        x0 = arrs[0]
+        nd = len(x0.shape)
+        if kind == "column_stack":
+            if nd != 1:
+                raise ev.err("column_stack of arrays that are not one-dimensional", n, mod)
+            ax = 1
+        elif kind == "vstack":
+            ax = 0
+            if nd == 1:
+                out = ArrV(x0.batch, (len(arrs), x0.shape[0]))
+                for i, x in enumerate(arrs):
+                    for j in range(x0.shape[0]):
+                        out.cells[(i, j)] = x.get((j,))
+                return out
+            return _concat(ev, arrs, 0, n, mod)
+        elif kind == "hstack":
+            return _concat(ev, arrs, 0 if nd == 1 else 1, n, mod)
+        else:
+            ax = axis if axis >= 0 else nd + 1 + axis
+        shape = list(x0.shape)
+        shape.insert(ax, len(arrs))
+        out = ArrV(x0.batch, shape, batch_last=x0.batch_last)
+        for i, x in enumerate(arrs):
+            for key in itertools.product(*[range(d) for d in x0.shape]):
+                kk = list(key)
+                kk.insert(ax, i)
+                out.cells[tuple(kk)] = x.get(key)
+        return out
+    f.kw = {"axis"}
+    return f
+
+
+def _concat(ev, arrs, axis, n, mod):
+    x0 = arrs[0]
+    if any(len(x.shape) != len(x0.shape) for x in arrs):
+        raise ev.err("concatenate of arrays of different rank", n, mod)
+    shape = list(x0.shape)
+    shape[axis] = sum(x.shape[axis] for x in arrs)
+    out = ArrV(max(x.batch for x in arrs), shape)
+    off = 0
+    for x in arrs:
+        for key in itertools.product(*[range(d) for d in x.shape]):
+            kk = list(key)
+            kk[axis] += off
+            out.cells[tuple(kk)] = x.get(key)
+        off += x.shape[axis]
+    return out
+
+
+def lib_concatenate(ev, a, k, n, mod):
+    arrs = [_as_arr(ev, i, n, mod) for i in ev.iterate(a[0], n, mod)]
+    if not all(isinstance(x, ArrV) for x in arrs):
+        raise ev.err("concatenate of values that are not small arrays", n, mod)
+    axis = _const_int(k.get("axis", a[1] if len(a) > 1 else sp.Integer(0)))
+    return _concat(ev, arrs, axis % len(arrs[0].shape), n, mod)
+
+
+lib_concatenate.kw = {"axis"}
+
+
+def lib_repeat(ev, a, k, n, mod):
+    x = _as_arr(ev, a[0], n, mod)
+    reps = _const_int(a[1] if len(a) > 1 else k.get("repeats"))
+    axis = k.get("axis", a[2] if len(a) > 2 else None)
+    if not isinstance(x, ArrV) or axis is None:
+        raise ev.err("numpy.repeat without an axis / of a value that is not a small array", n, mod)
+    axis = _const_int(axis) % len(x.shape)
+    shape = list(x.shape)
+    shape[axis] *= reps
+    out = ArrV(x.batch, shape)
+    for key in itertools.product(*[range(d) for d in shape]):
+        src_ = list(key)
+        src_[axis] //= reps
+        out.cells[tuple(key)] = x.get(tuple(src_))
+    return out
+
+
+lib_repeat.kw = {"axis", "repeats"}
+LIB.update({"numpy.transpose": lib_transpose, "ndarray.transpose": lib_transpose, "numpy.stack": lib_stack("stack"), "numpy.column_stack": lib_stack("column_stack"),
+            "numpy.vstack": lib_stack("vstack"), "numpy.hstack": lib_stack("hstack"), "numpy.repeat": lib_repeat})
 LIB.update({"numpy.clip": lib_clip, "ndarray.clip": lib_clip, "numpy.maximum": lib_minmax2("MAXIMUM"), "numpy.minimum": lib_minmax2("MINIMUM"),
             "numpy.fmax": lib_minmax2("MAXIMUM"), "numpy.fmin": lib_minmax2("MINIMUM")})
 LIB.update({"numpy.zeros_like": lib_zeros_like, "numpy.ones_like": lib_ones_like, "numpy.empty_like": lib_empty_like, "numpy.eye": lib_eye,
